@@ -67,12 +67,12 @@ def _uninstall(undo):
         setattr(cls, name, orig)
 
 
-def run_once(net, script=None, default="identity", sched_seed=0, exec_mode=None, prelude_seed=None):
+def run_once(net, script=None, default="identity", sched_seed=0, exec_mode=None, prelude_seed=None, fail=None):
     """Run one (network, schedule) in a forked child (pristine process state, like fresh workers)."""
     from .. import scenario_kit as sk
 
     try:
-        return sk.run_isolated(_run_once, net, script, default, sched_seed, exec_mode, prelude_seed, timeout=600.0)
+        return sk.run_isolated(_run_once, net, script, default, sched_seed, exec_mode, prelude_seed, fail, timeout=600.0)
     except sk.IsolatedRunError as e:
         return {"digests": [], "facts": [], "batches": None, "error": ("run-raised-IsolatedRunError-harness", str(e)[:500])}
 
@@ -97,7 +97,7 @@ def _prelude(seed):
         sk.teardown(b)
 
 
-def _run_once(net, script=None, default="identity", sched_seed=0, exec_mode=None, prelude_seed=None):
+def _run_once(net, script=None, default="identity", sched_seed=0, exec_mode=None, prelude_seed=None, fail=None):
     """Run one (network, schedule); returns per-step digests, bookkeeping facts and the batches seen."""
     from .. import scenario_kit as sk
     from .. import shimray
@@ -123,6 +123,8 @@ def _run_once(net, script=None, default="identity", sched_seed=0, exec_mode=None
                 pass
 
     shimray.STATE.after_job = after_job
+    if fail is not None:
+        shimray.STATE.fail_jobs = {tuple(fail)}     # that job raises on its "worker"; ray.get surfaces it as a RayTaskError
     out = {"digests": [], "facts": [], "batches": None, "error": None}
     try:
         app = b.app
@@ -229,6 +231,13 @@ def schedules_for(net, base_batches, rng, quick):
            ("exec-reverse", None, "identity", 0, "reverse"), ("exec-random+random", None, "random", rng.randrange(1 << 30), "random"),
            # the same run after another scenario has been run to its end in the same interpreter (bookkeeping checked, nothing compared)
            ("after-another-scenario", None, "identity", 0, None, rng.randrange(1 << 30))]
+    # a fault in one worker job of the step: the step may fail loudly, but if it completes its records must still be exact
+    n_task_jobs = sum(n for fn, n, _p in base_batches if fn == "asyncExecuteTasking")
+    if n_task_jobs:
+        out.append(("fault-in-task-job", None, "identity", 0, None, None, ("asyncExecuteTasking", rng.randrange(1, n_task_jobs + 1))))
+    n_upd = sum(n for fn, n, _p in base_batches if fn == "asyncUpdateEstimate")
+    if n_upd and not quick:
+        out.append(("fault-in-update-job", None, "identity", 0, None, None, ("asyncUpdateEstimate", rng.randrange(1, n_upd + 1))))
     if not quick:
         out.append(("random-b", None, "random", rng.randrange(1 << 30)))
     # index batches per function
@@ -276,11 +285,15 @@ def eval_net(ctx, net, rng):
         desc, script, default, seed = entry[:4]
         exec_mode = entry[4] if len(entry) > 4 else None
         prelude_seed = entry[5] if len(entry) > 5 else None
+        fail = entry[6] if len(entry) > 6 else None
         if ctx.time_left() < 5:
             break
-        res = run_once(net, script, default, seed, exec_mode, prelude_seed)
+        res = run_once(net, script, default, seed, exec_mode, prelude_seed, fail)
+        if fail is not None and res["error"] and "injected worker fault" in res["error"][1]:
+            ctx.count("fault_runs_that_failed_loudly")      # the documented behaviour: the error surfaces, nothing to audit
+            continue
         sd = {"desc": desc, "script": {f"{k[0]}#{k[1]}" if isinstance(k, tuple) else k: list(v) for k, v in (script or {}).items()}, "default": default, "seed": seed, "exec_mode": exec_mode,
-              "prelude_seed": prelude_seed}
+              "prelude_seed": prelude_seed, "fail": list(fail) if fail else None}
         wit = {"kind": "c08", "net": net, "schedule": sd}
         if res["error"] and ("LinAlgError" in res["error"][0] or "invalid numeric entries" in res["error"][1]):
             ctx.count("schedules_skipped_filter_divergence")
@@ -291,6 +304,9 @@ def eval_net(ctx, net, rng):
         nsched += 1
         ctx.add_to_set("schedule_scripts", desc.split("=")[0] + "=" + str(len(desc)))
         check_bookkeeping(ctx, net, res, sd)
+        if fail is not None:
+            ctx.count("fault_runs_that_completed")          # the fault was swallowed: only the bookkeeping above is checked
+            continue
         if prelude_seed is not None:
             # the property speaks about one run's records and about completion orders; what an earlier scenario may change in the
             # numbers is not compared here (truth: C10) - only this run's own bookkeeping is checked
@@ -391,8 +407,11 @@ def replay(ctx, w):
             script[k] = tuple(v)
     base = run_once(net)
     check_bookkeeping(ctx, net, base, "identity")
-    res = run_once(net, script or None, sd.get("default", "identity"), sd.get("seed", 0), sd.get("exec_mode"), sd.get("prelude_seed"))
-    if sd.get("prelude_seed") is not None and not res["error"]:
+    res = run_once(net, script or None, sd.get("default", "identity"), sd.get("seed", 0), sd.get("exec_mode"), sd.get("prelude_seed"), tuple(sd["fail"]) if sd.get("fail") else None)
+    if sd.get("fail") and res["error"] and "injected worker fault" in res["error"][1]:
+        ctx.check(True, "order-dependence", "", w, mon="order_indep")
+        return
+    if (sd.get("prelude_seed") is not None or sd.get("fail")) and not res["error"]:
         check_bookkeeping(ctx, net, res, sd)
         ctx.check(True, "order-dependence", "", w, mon="order_indep")
         return
